@@ -12,6 +12,7 @@ import (
 	"fmt"
 	"os"
 	"runtime"
+	"strconv"
 	"strings"
 	"sync"
 
@@ -54,10 +55,15 @@ func fnv(b []byte) uint64 {
 	return h
 }
 
+var obsSeen = map[string]bool{}
+
 func evalCases(cases []*Case, o *common.Options, rep *common.Report) error {
 	res := runCases(cases)
 	for _, r := range res {
 		c, obs := r.c, r.obs
+		if debugObs != nil {
+			debugObs(c, obs)
+		}
 		nontrivial := obs.Handle == "fwd" && len(obs.Origin) > 0 && len(obs.Client) > 0
 		rep.Case(sig(c), nontrivial)
 		rep.Count("kind=" + c.Kind)
@@ -73,7 +79,16 @@ func evalCases(cases []*Case, o *common.Options, rep *common.Report) error {
 				rep.Count("req-trailers")
 			}
 		}
-		for _, f := range oracle(c, obs) {
+		fails, observations := oracle(c, obs)
+		for _, n := range observations {
+			key, _, _ := strings.Cut(n, " | ")
+			rep.Count(key)
+			if !obsSeen[key] {
+				obsSeen[key] = true
+				rep.Note("observation outside the statement (not a failure): %.300s", n)
+			}
+		}
+		for _, f := range fails {
 			rep.Fail(f)
 			if strings.HasPrefix(f.Key, "F16:") || strings.HasPrefix(f.Key, "F17:") {
 				rep.FindingsProbed[f.Key] = true
@@ -129,6 +144,9 @@ func main() {
 			err = stringsEngine(r.Fork(1<<40), o, rep)
 		}
 		n := o.Budget(1500, 50000)
+		if v, e := strconv.Atoi(os.Getenv("C16_N")); e == nil {
+			n = v
+		}
 		var cases []*Case
 		for i := 0; i < n && err == nil; i++ {
 			c := genCase(r.Fork(uint64(i)), o.Search)
@@ -171,3 +189,14 @@ func findingProbes() []*Case {
 	f17.Scripts = []Script{ok}
 	return []*Case{f16, f17}
 }
+
+func init() {
+	if os.Getenv("C16_SHOWOBS") != "" {
+		debugObs = func(c *Case, o *Obs) {
+			b, _ := json.MarshalIndent(o, "", " ")
+			fmt.Fprintln(os.Stderr, string(b))
+		}
+	}
+}
+
+var debugObs func(c *Case, o *Obs)
